@@ -356,6 +356,47 @@ func (x *SPE) instrsFrom(st *pathState, b *ssa.BasicBlock, from int) {
 					return
 				}
 			}
+			if bi, ok := call.Call.Value.(*ssa.Builtin); ok && (bi.Name() == "min" || bi.Name() == "max") && len(call.Call.Args) == 2 {
+				// min(a, b) = if b < a { b } else { a };  max(a, b) = if a < b { b } else { a }:
+				// the literal a hand-written clamp tests
+				av, bv := x.val(st, call.Call.Args[0]), x.val(st, call.Call.Args[1])
+				var cond *Expr
+				if bi.Name() == "min" {
+					cond = foldBin(token.LSS, bv, av, types.Typ[types.Bool], call.Pos())
+				} else {
+					cond = foldBin(token.LSS, av, bv, types.Typ[types.Bool], call.Pos())
+				}
+				if v, isC := cond.boolConst(); isC {
+					if v {
+						st.env[call] = bv
+					} else {
+						st.env[call] = av
+					}
+					continue
+				}
+				a, pol := normAtom(cond)
+				if v, ok := st.known(a); ok {
+					if v == pol {
+						st.env[call] = bv
+					} else {
+						st.env[call] = av
+					}
+					continue
+				}
+				t := st.clone()
+				t.addLit(a, pol, call.Pos(), call)
+				t.env[call] = bv
+				x.instrsFrom(t, b, idx+1)
+				st.addLit(a, !pol, call.Pos(), call)
+				st.env[call] = av
+				x.instrsFrom(st, b, idx+1)
+				return
+			}
+			if cal := call.Call.StaticCallee(); cal != nil && cal.Blocks == nil || cal != nil && !strings.HasPrefix(calleePkg(cal), modPath) {
+				if x.modelStdlib(st, b, idx, call, cal) {
+					return
+				}
+			}
 		}
 		switch in := in.(type) {
 		case *ssa.If:
@@ -464,6 +505,109 @@ func (x *SPE) deepInline(st *pathState, b *ssa.BasicBlock, idx int, call *ssa.Ca
 	st.frames = append(st.frames, speFrame{call: call, b: b, idx: idx})
 	x.block(st, cal.Blocks[0], nil)
 	return true
+}
+
+// stdFunc finds a standard-library function of the program by package path and name.
+func stdFunc(pkg, name string) *ssa.Function {
+	if curLoaded == nil {
+		return nil
+	}
+	for _, p := range curLoaded.Prog.AllPackages() {
+		if p.Pkg.Path() == pkg {
+			return p.Func(name)
+		}
+	}
+	return nil
+}
+
+// modelStdlib gives the newer string helpers the meaning of the idiom they
+// abbreviate, so that either spelling is the same to every rule:
+//   CutPrefix(s, p)  = if HasPrefix(s, p) { s[len(p):], true } else { s, false }
+//   CutSuffix(s, p)  = if HasSuffix(s, p) { s[:len(s)-len(p)], true } else { s, false }
+//   TrimPrefix/TrimSuffix: the first component of the above
+//   Clone(x)         = append(nil, x...)
+// The path forks on the same HasPrefix/HasSuffix literal the long form tests.
+func (x *SPE) modelStdlib(st *pathState, b *ssa.BasicBlock, idx int, call *ssa.Call, cal *ssa.Function) bool {
+	pkg := calleePkg(cal)
+	if pkg != "bytes" && pkg != "strings" && pkg != "slices" {
+		return false
+	}
+	name := cal.Name()
+	if i := strings.IndexByte(name, '['); i >= 0 {
+		name = name[:i]
+	}
+	args := call.Call.Args
+	switch name {
+	case "Clone":
+		if len(args) != 1 || pkg == "strings" {
+			return false
+		}
+		v := x.val(st, args[0])
+		st.env[call] = &Expr{Op: OpBuiltin, Name: "append", Args: []*Expr{{Op: OpConst, Type: call.Type()}, v}, Type: call.Type(), Pos: call.Pos()}
+		x.instrsFrom(st, b, idx+1)
+		return true
+	case "CutPrefix", "CutSuffix", "TrimPrefix", "TrimSuffix":
+		if len(args) != 2 || pkg == "slices" {
+			return false
+		}
+		has := "HasPrefix"
+		if strings.HasSuffix(name, "Suffix") {
+			has = "HasSuffix"
+		}
+		hf := stdFunc(pkg, has)
+		if hf == nil {
+			return false
+		}
+		s, p := x.val(st, args[0]), x.val(st, args[1])
+		boolT := types.Typ[types.Bool]
+		atom := &Expr{Op: OpCall, Fn: hf, Args: []*Expr{{Op: OpFunc, Fn: hf}, s, p}, Type: boolT, Pos: call.Pos()}
+		intT := types.Typ[types.Int]
+		lenOf := func(e *Expr) *Expr {
+			if l := constLen(e); l >= 0 {
+				return mkConstInt(l, intT)
+			}
+			return &Expr{Op: OpBuiltin, Name: "len", Args: []*Expr{e}, Type: intT, Pos: call.Pos()}
+		}
+		var cut *Expr
+		if has == "HasPrefix" {
+			cut = &Expr{Op: OpSlice, Args: []*Expr{s, lenOf(p), nil, nil}, Type: args[0].Type(), Pos: call.Pos()}
+		} else {
+			cut = &Expr{Op: OpSlice, Args: []*Expr{s, nil, foldBin(token.SUB, lenOf(s), lenOf(p), intT, call.Pos()), nil}, Type: args[0].Type(), Pos: call.Pos()}
+		}
+		result := func(found bool) *Expr {
+			v := s
+			if found {
+				v = cut
+			}
+			if strings.HasPrefix(name, "Trim") {
+				return v
+			}
+			return &Expr{Op: "tuple", Args: []*Expr{v, mkConstBool(found)}, Type: call.Type()}
+		}
+		a, pol := normAtom(atom)
+		if v, ok := st.known(a); ok {
+			st.env[call] = result(v == pol)
+			x.instrsFrom(st, b, idx+1)
+			return true
+		}
+		if x.Decide != nil {
+			if v, ok := x.Decide(a, st); ok {
+				st.env[call] = result(v == pol)
+				x.instrsFrom(st, b, idx+1)
+				return true
+			}
+		}
+		st.events = append(st.events, Event{Kind: EvCall, Val: atom, Pos: call.Pos(), Instr: call})
+		t := st.clone()
+		t.addLit(a, pol, call.Pos(), call)
+		t.env[call] = result(true)
+		x.instrsFrom(t, b, idx+1)
+		st.addLit(a, !pol, call.Pos(), call)
+		st.env[call] = result(false)
+		x.instrsFrom(st, b, idx+1)
+		return true
+	}
+	return false
 }
 
 // inlineCall splices the paths of a pure callee into the current path.
@@ -686,6 +830,12 @@ func (x *SPE) val(st *pathState, v ssa.Value) *Expr {
 				st.env[v] = e
 				return e
 			}
+		}
+		if k, ok := constParam(v); ok {
+			// every caller passes this constant
+			e := &Expr{Op: OpConst, Const: k.Value, Type: v.Type()}
+			st.env[v] = e
+			return e
 		}
 		e := &Expr{Op: OpParam, Name: v.Name(), Type: v.Type(), Pos: v.Pos()}
 		st.env[v] = e
@@ -1166,6 +1316,55 @@ func foldBin(op token.Token, l, r *Expr, t types.Type, pos token.Pos) *Expr {
 			return mkConstBool(same == (op == token.EQL))
 		}
 	}
+	// string(a) == string(b) on byte slices is bytes.Equal(a, b) (that is how
+	// bytes.Equal is defined); a string constant compared with string(a) is
+	// bytes.Equal(a, []byte(const))
+	if op == token.EQL || op == token.NEQ {
+		byteSrc := func(e *Expr) *Expr {
+			if e.Op == OpConvert && e.Name == "convert" && len(e.Args) == 1 && e.Args[0].Type != nil && isStringT(e.Type) {
+				if sl, ok := e.Args[0].Type.Underlying().(*types.Slice); ok {
+					if bt, ok := sl.Elem().Underlying().(*types.Basic); ok && bt.Kind() == types.Byte {
+						return e.Args[0]
+					}
+				}
+			}
+			return nil
+		}
+		asBytes := func(e *Expr) *Expr {
+			if b := byteSrc(e); b != nil {
+				return b
+			}
+			if e.Op == OpConst && e.Const != nil && e.Const.Kind() == constant.String {
+				return &Expr{Op: OpConvert, Name: "convert", Args: []*Expr{e}, Type: types.NewSlice(types.Typ[types.Byte])}
+			}
+			return nil
+		}
+		if (byteSrc(l) != nil) != (byteSrc(r) != nil) {
+			// one side a byte slice, the other a string constant
+			l2, r2 := asBytes(l), asBytes(r)
+			if l2 != nil && r2 != nil {
+				if byteSrc(l) == nil {
+					l2, r2 = r2, l2
+				}
+				if f := stdFunc("bytes", "Equal"); f != nil {
+					call := &Expr{Op: OpCall, Fn: f, Args: []*Expr{{Op: OpFunc, Fn: f}, l2, r2}, Type: t, Pos: pos}
+					if op == token.EQL {
+						return call
+					}
+					return &Expr{Op: OpUn, Tok: token.NOT, Args: []*Expr{call}, Type: t}
+				}
+			}
+		}
+		if a, bb := byteSrc(l), byteSrc(r); a != nil && bb != nil {
+			if f := stdFunc("bytes", "Equal"); f != nil {
+				call := &Expr{Op: OpCall, Fn: f, Args: []*Expr{{Op: OpFunc, Fn: f}, a, bb}, Type: t, Pos: pos}
+				if op == token.EQL {
+					return call
+				}
+				return &Expr{Op: OpUn, Tok: token.NOT, Args: []*Expr{call}, Type: t}
+			}
+		}
+	}
 	// x+0, 0+x, x-0
 	if op == token.ADD || op == token.SUB {
 		if z, ok := r.intConst(); ok && z == 0 && !l.isConst() {
@@ -1191,6 +1390,14 @@ func foldBin(op token.Token, l, r *Expr, t types.Type, pos token.Pos) *Expr {
 		}
 	}
 	return &Expr{Op: OpBin, Tok: op, Args: []*Expr{l, r}, Type: t, Pos: pos}
+}
+
+func isStringT(t types.Type) bool {
+	if t == nil {
+		return false
+	}
+	b, ok := t.Underlying().(*types.Basic)
+	return ok && b.Info()&types.IsString != 0
 }
 
 func isFloatType(t types.Type) bool {
